@@ -24,6 +24,7 @@ func init() {
 			ruleIDValidation(c, "C08.4")
 			ruleRejectedIDsRecorded(c, "C08.4b")
 			ruleSingleDispatch(c, "C08.5")
+			rulePick(c, "C08.8")
 			ruleCloseOnce(c, "C08.5b")
 			ruleLateFramesInert(c, "C08.6")
 			ruleEmitIDs(c, "C08.7")
@@ -41,6 +42,7 @@ func init() {
 			ruleClosePathsReachCarrier(c, "C10.5")
 			ruleGracefulStopReturns(c, "C10.6")
 			ruleEmitIDs(c, "C10.7")
+			ruleShortLocks(c, "C10.8")
 		},
 		Explain:    "Static necessary conditions of graceful shutdown: the table insert is gated by the shutting-down predicate whose true edge is a stream-level Unavailable; the refused id is recorded first so the refusal cannot abort the tunnel; the refusal reply is sent off the loop, once; the shutdown entry points set exactly what the predicates read; Stop's structure (state, CloseSend all, wait; Add/Done pairing); and every WaitGroup wait has a release edge — GracefulStop has none (known finding F-7).",
 		Assume:     []string{"sync.WaitGroup and atomic.Bool semantics"},
@@ -57,6 +59,7 @@ func init() {
 			ruleClientIDs(c, "C14.7a", "C14.7b", "C14.7")
 			ruleCloseOnce(c, "C14.8")
 			ruleCloseSafety(c, "C14.9")
+			ruleLocalFailureNotifiesPeer(c, "C14.10")
 		},
 		Explain:    "Static necessary conditions of 'nothing left behind': every go statement falls in a verified termination class (straight-line sender, context watcher whose context is cancelled on every finishing path, receive loop, dispatch with deferred finish); every table insert has its delete on every finishing path (both ends) and on first-send failure; stream contexts are cancelled on every finishing path; cancel empties the queue; no run-time writes to package-level state; registry add/deferred-remove pairing.",
 		Assume:     []string{"handlers return when their context is cancelled and their blocking operations are released (C04.4)"},
